@@ -7,6 +7,9 @@ func f32(x float32) *float32 { return &x }
 // Configs are the shard configurations the drivers know by name.
 var Configs = map[string]Config{
 	"none": {Name: "none"},
+	// a third of the inserted points are ids without data (no document at all: the properties speak about documents, and the
+	// shard's update path answers "could not unmarshal old data: EOF" for such a point, so these histories insert and delete only)
+	"none-nodata": {Name: "none-nodata", PNoData: 0.35, NoUpdates: true},
 	"scalars": {Name: "scalars", RareEmpty: true, Props: []Prop{
 		{Name: "i", Type: models.IndexTypeInteger},
 		{Name: "f", Type: models.IndexTypeFloat},
@@ -45,6 +48,10 @@ func init() {
 	}
 	Configs["vamana-wide"] = Config{Name: "vamana-wide", NoExtras: true, PVec: 0.95, VecRange: 1500, VecLine: true, Props: append([]Prop{
 		{Name: "v", Type: models.IndexTypeVectorVamana, Metric: models.DistanceEuclidean, Dim: 2, SearchSize: 75, DegreeBound: 64, Alpha: 1.2}}, filt...)}
+	// saturated neighbourhoods: many dimensions, few distinct component values, so that
+	// robust pruning removes little and the degree bound is actually reached
+	Configs["vamana-dense"] = Config{Name: "vamana-dense", NoExtras: true, PVec: 0.95, VecRange: 2, NIDs: 1300, Props: append([]Prop{
+		{Name: "v", Type: models.IndexTypeVectorVamana, Metric: models.DistanceEuclidean, Dim: 24, SearchSize: 75, DegreeBound: 32, Alpha: 1.2}}, filt...)}
 	Configs["flat-pq"] = Config{Name: "flat-pq", NoExtras: true, NIDs: 1300, Quantised: true, PVec: 0.97, VecRange: 9, Props: append([]Prop{
 		{Name: "fl", Type: models.IndexTypeVectorFlat, Metric: models.DistanceEuclidean, Dim: 4,
 			Quant: &models.Quantizer{Type: models.QuantizerProduct, Product: &models.ProductQuantizerParameters{NumCentroids: 8, NumSubVectors: 2, TriggerThreshold: 1000}}}}, filt...)}
